@@ -308,6 +308,19 @@ class C05(PtgCheck):
             out.append("dist 3:cyc:1:d:64:2 | " + jdfgen.to_case(jdfdist.f8_program()))
         # the same program where the property holds: star, binomial (N=3), and 1 process
         out.append("dist 3:cyc:0:0:64:1 3:cyc:2:d:640:2 1:cyc:1:d:64:2 | " + jdfgen.to_case(jdfdist.f8_program()))
+        # directed: overlapping destination sets OUTSIDE the relay-lacks-output class, a producer on every rank (all roots),
+        # 3 and 4 ranks, chain and binomial: a hole in the numbering of the broadcast tree loses an activation (hang)
+        ov = jdfdist.overlap_program(4, 3)
+        ovc = ["3:bc.1.3.1.1:1:d:64:1", "4:bc.1.4.1.1:2:0:64:1", "4:bc.1.4.1.1:1:d:640:2", "3:bc.1.3.1.1:2:d:64:2"]
+        assert not any(jdfdist.relay_lacks_output(ov, parse_cfg(c)["place"], parse_cfg(c)["np"], parse_cfg(c)["bcast"]) for c in ovc)
+        out.append("dist %s | %s" % (" ".join(ovc), jdfgen.to_case(ov)))
+        if not quick:
+            for n, wide in ((3, 2), (5, 3), (4, 2), (6, 4)):
+                ov = jdfdist.overlap_program(n, wide)
+                cf = [c for c in ("3:bc.1.3.1.1:1:0:64:2", "4:bc.1.4.1.1:1:d:64:2", "4:bc.1.4.1.1:2:d:2048:1", "2:bc.1.2.1.1:1:d:64:1",
+                                  "4:bc.2.2.1.1:2:d:64:2", "3:hash:1:d:64:2")
+                      if not jdfdist.relay_lacks_output(ov, parse_cfg(c)["place"], parse_cfg(c)["np"], parse_cfg(c)["bcast"])]
+                out.append("dist %s | %s" % (" ".join(cf), jdfgen.to_case(ov)))
         nprog = 4 if quick else 60
         ts = r.shuffle(list(jdfdist.DIST_TEMPLATES))
         nps = r.shuffle([2, 3, 4, 4, 3, 2])
